@@ -1,6 +1,7 @@
 import ConduitModel.Proofs.ProcNodeC
 import ConduitModel.Proofs.ProcNodeLog
 import ConduitModel.Spec.ProcNode
+import ConduitModel.Proofs.ProcSvc
 
 /-!
 # C13 — live processor reconfiguration: property theorems
@@ -408,3 +409,67 @@ example : (run init [.runOpen true, .claim, .stage 1, .ctxDone, .finalTeardown 0
     some (.exited, some 1, .waiting, false) := by rfl
 
 end Conduit.Model.ProcNode
+
+/-! ### the service wrapper `lifecycle.Service.ReconfigureProcessor`
+
+The wrapper builds a fresh runnable, hands it to `node.Reconfigure` and returns that call's result; the
+model `Model/ProcSvc.lean` adds the wrapper's own steps to the node's event system. `tdOnError` is
+regenerated from reconfigure.go (`Facts/C13.lean: C13_fact_service_wrapper`): on the tree as it is the
+wrapper never touches the runnable after `node.Reconfigure`. -/
+namespace Conduit.Model.ProcSvc
+open Conduit.Model.ProcNode
+
+/-- C13 "every record is processed by exactly one configuration … the old one keeps running": while the
+Run loop is up, the processor installed in the node is LIVE — opened, and torn down by nobody (neither the
+node nor the service wrapper) — in every reachable state of the service-level system, i.e. for every
+interleaving of any number of ReconfigureProcessor calls (successful, failed, rejected, cancelled before
+or AFTER the loop claimed them) with the loop. Requires only the regenerated fact that the wrapper does
+not tear the runnable down. -/
+theorem C13_installed_processor_live {c : Cfg} (hc : c.tdOnError = false) {s : State} (h : Reachable c s)
+    (hinit : s.n.pc ≠ .init) (hexit : s.n.pc ≠ .exited) : live s s.n.cur := by
+  have hi := reachable_sinv h
+  refine ⟨hi.node.a.cur_opened hinit, hi.node.c.cur_live hexit, ?_⟩
+  rw [hi.noTd hc]; simp
+
+/-- … hence every `Process` call — in particular every one after a reconfigure request, whatever became
+of the request — is served by a live processor (the old one or the new one). -/
+theorem C13_every_record_processed_by_live_processor {c : Cfg} (hc : c.tdOnError = false) {s s' : State}
+    (h : Reachable c s) {g i : Nat} (hs : step c s (.node (.procCall g i)) = some s') : live s g := by
+  simp only [step, Option.map_eq_some_iff] at hs
+  obtain ⟨n', hn, _⟩ := hs
+  simp only [ProcNode.step] at hn
+  split at hn
+  · rename_i hg
+    obtain ⟨hpc, hgc, _⟩ := hg
+    rw [hgc]
+    exact C13_installed_processor_live hc h (by rw [hpc]; decide) (by rw [hpc]; decide)
+  · cases hn
+
+/-- only the node tears processors down: the wrapper's teardown list stays empty. -/
+theorem C13_service_never_tears_down {c : Cfg} (hc : c.tdOnError = false) {s : State} (h : Reachable c s) :
+    s.svcTorn = [] := (reachable_sinv h).noTd hc
+
+/-- the node-level theorems hold unchanged under the wrapper (its steps do not touch the node). -/
+theorem C13_service_preserves_node_invariants {c : Cfg} {s : State} (h : Reachable c s) : ProcNode.Inv s.n :=
+  (reachable_sinv h).node
+
+/-- Why the fact matters (seeded change C13_4, "tear the unused runnable down when Reconfigure fails"):
+a request cancelled AFTER the loop claimed it returns `ctx.Err()` to the wrapper while the loop still
+completes the swap; a wrapper that then tears the runnable down kills the plugin of the processor the
+node installs — record 0 below is processed by processor 1, which the service has torn down. -/
+theorem C13_wrapper_teardown_counterexample :
+    (run ⟨true⟩ init
+      [.node (.runOpen true), .node .claim, .node (.stage 1), .node (.wakeSend 1), .node .wakeRecv, .node .claim,
+       .node (.cancel 1), .svcTeardown 1, .svcReturn 1, .node (.openNew 1 true), .node (.teardownRc 0),
+       .node .deliver, .node (.procCall 1 0)]).map (fun s => (s.n.cur, s.svcTorn, s.n.pc, s.n.cst 1)) =
+    some (1, [1], .processing 0, .returned .cancelled) := by decide
+
+/-- non-vacuity: the same history is a run of the as-is system (without the wrapper teardown). -/
+example :
+    (run ⟨false⟩ init
+      [.node (.runOpen true), .node .claim, .node (.stage 1), .node (.wakeSend 1), .node .wakeRecv, .node .claim,
+       .node (.cancel 1), .svcReturn 1, .node (.openNew 1 true), .node (.teardownRc 0),
+       .node .deliver, .node (.procCall 1 0)]).map (fun s => (s.n.cur, s.svcTorn, s.n.pc)) =
+    some (1, [], .processing 0) := by decide
+
+end Conduit.Model.ProcSvc
